@@ -307,7 +307,9 @@ def handle_failure(prop, m, kb, wd, cfile, j, r, failed, ctx):
     inputs = dict(r.traces.get(failed[0]["name"], {}) or r.trace_inputs)
     search_note = ""
     havocked = j.loop_contracts or j.enforce and getattr(j, "inputs_via_contract", False)
-    if (not inputs or j.loop_contracts) and getattr(j, "search", None):
+    # a job that enforces a contract builds its inputs from the preconditions (is_fresh objects): the harness-recorded g_in_* of its trace
+    # are the zero initialisers, so the designated search job is the input finder
+    if (not inputs or j.loop_contracts or j.enforce) and getattr(j, "search", None):
         sj = [x for x in kb.jobs if x.name == j.search]
         if sj:
             sr = run_job(cfile, sj[0], wd)
